@@ -40,7 +40,7 @@ let cut (bs : Byte.byte list) (sizes : int list) : Byte.byte list list =
 let s_of_derr (e : Stream.derr) : string = match e with
   | Stream.EEof -> "eof" | Stream.EUnexpectedEof -> "ueof" | Stream.EDetectionOverflow -> "overflow"
   | Stream.EReadLimit -> "limit" | Stream.EInvalidType -> "type" | Stream.EDecode -> "decode"
-  | Stream.ESource c -> (match int_of_n c with 1 -> "src" | 2 -> "closed" | 3 -> "deadline" | 4 -> "carrier" | _ -> "src?")
+  | Stream.ESource c -> (match int_of_n c with 1 -> "src" | 2 -> "closed" | 3 -> "deadline" | 4 -> "carrier" | 5 -> "notbinary" | _ -> "src?")
   | Stream.EOutOfFuel -> "OUT-OF-FUEL"
 
 (* frame bytes -> what Type.New()+Decode made of them, as reported by the harness *)
@@ -195,6 +195,32 @@ let run_c03 path =
            let cap x = if S.length x > 12 then S.sub x 0 12 else x in
            note_class (kind ^ " " ^ cap oc ^ " " ^ cap rc ^ " d" ^ kv f "delay")
          end
+       | Some (("tcp" | "ws" as kind) :: f) ->
+         incr n;
+         let lim = n_of_string (kv f "lim") in
+         missing_oracle := 0;
+         let (chunks, e) =
+           if kind = "tcp" then ([bytes_of_hex (kv f "stream")], Stream.SEof)
+           else begin
+             let ms = if kv f "msgs" = "-" then [] else L.map (fun m ->
+                 { WsStream.wm_binary = (m.[0] = 'b'); WsStream.wm_data = bytes_of_hex (S.sub m 2 (S.length m - 2)) })
+                 (split ',' (kv f "msgs")) in
+             let total = L.fold_left (fun a m -> a + L.length m.WsStream.wm_data) 0 ms in
+             let sizes = L.init (total + L.length ms + 2) (fun i -> n_of_int (if i mod 3 = 0 then 4096 else if i mod 3 = 1 then 7 else 512)) in
+             match WsStream.ws_read_all sizes (WsStream.ws_init ms Stream.SEof) with
+             | (cs, Some WsStream.WEof) -> (cs, Stream.SEof)
+             | (cs, Some WsStream.WNotBinary) -> (cs, Stream.SErr (n_of_int 5))
+             | (cs, Some (WsStream.WErr c)) -> (cs, Stream.SErr c)
+             | (cs, _) -> (cs, Stream.SErr (n_of_int 99))
+           end in
+         let a = Stream.dec_all Stream.detect_impl decode_oracle lim chunks e in
+         let m_pk = match a.Stream.a_frames with [] -> "-" | fs -> S.concat "/" (L.map (fun (_, p) -> s_of_packet p) fs) in
+         let m_err = s_of_derr a.Stream.a_err in
+         let i_pk = canon_pkts (kv obs "pkts") and i_err = kv obs "err" in
+         if m_pk <> i_pk || m_err <> i_err || !missing_oracle > 0 then begin
+           incr bad;
+           Printf.printf "diff %s %s model: pkts=%s err=%s | impl: pkts=%s err=%s\n" k kind m_pk m_err i_pk i_err end;
+         note_class (Printf.sprintf "%s %s n%d lim%s" kind m_err (min 6 (L.length a.Stream.a_frames)) (if kv f "lim" = "0" then "0" else "+"))
        | Some ("wire" :: f) ->
          incr n;
          let stream = bytes_of_hex (kv f "stream") in
